@@ -382,6 +382,10 @@ func (s *State) Import(state types.AppState, version string) error {
 		s.Checks.UseCheckHash(hash)
 	}
 
+	for _, hb := range state.HaltBlocks {
+		s.Halts.AddHaltBlock(hb.Height, hb.CandidateKey)
+	}
+
 	for _, ff := range state.FrozenFunds {
 		coinID := types.CoinID(ff.Coin)
 		value := helpers.StringToBigInt(ff.Value)
